@@ -454,23 +454,23 @@ Inverse(fin, fout) == <<fout, fin>>
 -----------------------------------------------------------------------------
 (* token alphabets: every branch of the codecs is hit by some string over them *)
 TokBase == IF Alpha = "q" THEN {<<0>>, <<65>>, <<255>>}
-           ELSE {<<0>>, <<65>>, <<255>>, <<127>>, <<195>>, <<16>>}
+           ELSE {<<0>>, <<65>>, <<255>>, <<127>>}
 (* 'M' digit in all three alphabets, 'g' only Base64, '7' digit of Base32 and Base64 but not of
-   Base32Hex, '1' not of Base32, '!' of none *)
+   Base32Hex, '!' of none *)
 TokDec == IF Alpha = "q" THEN {<<77>>, <<61>>, <<10>>, <<103>>, <<33>>}
-          ELSE {<<77>>, <<61>>, <<10>>, <<103>>, <<33>>, <<49>>, <<55>>, <<32>>}
+          ELSE {<<77>>, <<61>>, <<10>>, <<103>>, <<33>>, <<55>>}
 TokUtf8 == IF Alpha = "q"
            THEN {<<65>>, <<195, 169>>, <<226, 130, 172>>, <<240, 159, 152, 128>>, <<239, 187, 191>>,
                  <<237, 191, 191>>, <<226>>, <<169>>, <<255>>}
-           ELSE {<<0>>, <<65>>, <<127>>, <<195, 169>>, <<226, 130, 172>>, <<240, 159, 152, 128>>,
-                 <<239, 187, 191>>, <<237, 191, 191>>, <<237, 159, 191>>, <<237, 160, 128>>, <<244, 143, 191, 191>>,
-                 <<195>>, <<226>>, <<240>>, <<169>>, <<191>>, <<255>>, <<192>>, <<244, 144>>}
-(* UTF-16LE code units: A, e-acute, BOM, reversed BOM, high and low surrogates, U+FFFF, and a single byte
-   to make odd sizes *)
+           ELSE {<<65>>, <<195, 169>>, <<226, 130, 172>>, <<240, 159, 152, 128>>, <<239, 187, 191>>,
+                 <<237, 191, 191>>, <<237, 159, 191>>, <<244, 143, 191, 191>>,
+                 <<226>>, <<169>>, <<255>>, <<195>>, <<240>>}
+(* UTF-16LE code units: A, BOM, reversed BOM, high and low surrogates (also the extreme ones), U+20AC, and
+   single bytes to make odd sizes *)
 TokUtf16 == IF Alpha = "q"
             THEN {<<65, 0>>, <<255, 254>>, <<61, 216>>, <<0, 222>>, <<254, 255>>, <<65>>}
-            ELSE {<<65, 0>>, <<233, 0>>, <<172, 32>>, <<255, 254>>, <<254, 255>>, <<61, 216>>, <<255, 219>>,
-                  <<0, 222>>, <<255, 223>>, <<255, 255>>, <<65>>, <<216>>}
+            ELSE {<<65, 0>>, <<172, 32>>, <<255, 254>>, <<254, 255>>, <<61, 216>>, <<255, 219>>,
+                  <<0, 222>>, <<255, 223>>, <<65>>, <<216>>}
 Tokens == CASE Family = "base" -> TokBase [] Family = "basedec" -> TokDec
             [] Family = "utf8" -> TokUtf8 [] Family = "utf16" -> TokUtf16 [] OTHER -> {}
 
@@ -500,7 +500,7 @@ LawBase(D, s) ==
     /\ \A sp \in Splits(s) : Is(Xform(D, sp, "NONE", c), y)                   \* encoder = RFC 4648
     /\ \A sp \in Splits(y) : Is(Xform(D, sp, c, "NONE"), s)                   \* Dec(split(Enc(x))) = x
     /\ \A sp \in Splits(WithNL(y)) : Is(Xform(D, sp, c, "NONE"), s)           \* ... with white space
-    /\ \A sp \in Splits(MidNL(y)) : Is(Xform(D, sp, c, "NONE"), s)
+    /\ Alpha = "t" => \A sp \in Splits(MidNL(y)) : Is(Xform(D, sp, c, "NONE"), s)
     /\ \A sp \in Splits(y) : Is(Xform(D, sp, c, NextCodec(c)), RefEnc(NextCodec(c), s))  \* transcoding
     /\ Is(Xform(D, One(y), c, c), y)
 LawBaseDec(D, s) ==
@@ -582,7 +582,7 @@ EmitBase(s) ==
   /\ \A c \in Codecs :
        LET y == RefEnc(c, s) IN
        /\ EmitCase(s, "NONE", c) /\ EmitCase(y, c, "NONE")
-       /\ EmitCase(WithNL(y), c, "NONE") /\ EmitCase(MidNL(y), c, "NONE")
+       /\ EmitCase(WithNL(y), c, "NONE") /\ (Alpha = "t" => EmitCase(MidNL(y), c, "NONE"))
        /\ EmitCase(y, c, NextCodec(c))
 EmitBaseDec(s) == \A c \in Codecs : EmitCase(s, c, "NONE") /\ EmitCase(s, c, "B64")
 EmitUtf8(s) ==
